@@ -204,4 +204,45 @@ theorem wf_hist_state_context (t : Tables) (hist : List Script) (hw : WF t) (h :
 
 example : HistOK true exT [.s exS, .c exC, .d exD, .s exS] := by decide
 
+/-! ## version counters over descriptor transactions and histories -/
+
+/-- DescriptorVersion of every descriptor, StateVersion of every single and context state - live or removed (saved
+    version) - never decreases over a descriptor transaction; a handle that is deleted and created again continues above
+    the saved version -/
+theorem descriptor_tx_versions_monotone_partial (t : Tables) (s : DScript) (hw : WF t) (hk : KOK t) (hs : DScriptOK t s)
+    (h : Handle) : seenD t h ≤ seenD (runD t s).1 h ∧ seenS t h ≤ seenS (runD t s).1 h ∧ seenC t h ≤ seenC (runD t s).1 h :=
+  ⟨(runD_mono hw hk s hs).seenD h, (runD_mono hw hk s hs).seenS h, (runD_mono hw hk s hs).seenC h⟩
+
+/-- a descriptor that differs after a descriptor transaction (content, or version bumped because a child was added or
+    removed) has a strictly larger DescriptorVersion -/
+theorem descriptor_change_bumps_partial (t : Tables) (s : DScript) (hw : WF t) (hk : KOK t) (hs : DScriptOK t s) (h : Handle)
+    (a b : Descr) (ha : findD t h = some a) (hb : findD (runD t s).1 h = some b) (hne : a ≠ b) : a.ver < b.ver :=
+  ((runD_mono hw hk s hs).chgD h a b ha hb).resolve_left hne
+
+/-- a single state that differs after a descriptor transaction (written, or following its descriptor's new version) has a
+    strictly larger StateVersion; the same for context states -/
+theorem descriptor_tx_state_change_bumps_partial (t : Tables) (s : DScript) (hw : WF t) (hk : KOK t) (hs : DScriptOK t s)
+    (h : Handle) (a b : SState) (ha : findS t h = some a) (hb : findS (runD t s).1 h = some b) (hne : a ≠ b) : a.sv < b.sv :=
+  ((runD_mono hw hk s hs).chgS h a b ha hb).resolve_left hne
+theorem descriptor_tx_context_change_bumps_partial (t : Tables) (s : DScript) (hw : WF t) (hk : KOK t) (hs : DScriptOK t s)
+    (h : Handle) (a b : CState) (ha : findC t h = some a) (hb : findC (runD t s).1 h = some b) (hne : a ≠ b) : a.sv < b.sv :=
+  ((runD_mono hw hk s hs).chgC h a b ha hb).resolve_left hne
+
+/-- the updated MDS (1) and its state; the written context state of the updated context descriptor 4 (written: +1, follows
+    the descriptor: +1); the state of the removed descriptor 3 keeps its version in the saved lookup -/
+example : seenD (runD exT exD).1 1 = some 4 ∧ seenS (runD exT exD).1 1 = some 5 ∧ seenC (runD exT exD).1 10 = some 4 ∧
+    seenD (runD exT exD).1 4 = some 2 ∧ seenS exT 3 = seenS (runD exT exD).1 3 := by decide
+
+/-- histories of transactions of all seven kinds: no version counter of any descriptor, state or context state - live or
+    removed - ever decreases (`HistOK true`: generated context state handles are fresh, entities are well-formed) -/
+theorem counters_monotone_hist (t : Tables) (hist : List Script) (hw : WF t) (hk : KOK t) (h : HistOK true t hist)
+    (x : Handle) : seenD t x ≤ seenD (runHist t hist) x ∧ seenS t x ≤ seenS (runHist t hist) x ∧
+      seenC t x ≤ seenC (runHist t hist) x := runHist_seen hist t hw hk h x
+
+/-- state and context histories: the two state counters, for every script sequence with fresh generated handles -/
+theorem state_context_counters_monotone_step (t : Tables) (sc : Script) (hw : WF t) (hk : KOK t) (h : StepOK true t sc)
+    (x : Handle) : seenD t x ≤ seenD (runScript t sc).1 x ∧ seenS t x ≤ seenS (runScript t sc).1 x ∧
+      seenC t x ≤ seenC (runScript t sc).1 x :=
+  ⟨(runScript_mono hw hk sc h).seenD x, (runScript_mono hw hk sc h).seenS x, (runScript_mono hw hk sc h).seenC x⟩
+
 end Sdc.C02
